@@ -132,14 +132,47 @@ fn mt_name(mt: u8) -> &'static str { if mt == 0 { "T1" } else { "T2" } }
 
 /// Content variant of a file state.
 #[derive(Clone, Copy, PartialEq, Eq, PartialOrd, Ord, Hash, Debug)]
-pub enum Variant { Base, LastDiffers, FirstDiffers }
+pub enum Variant {
+  /// Base pattern without short periods (byte i is a function of i only, so shorter base contents are prefixes).
+  Base,
+  LastDiffers,
+  FirstDiffers,
+  /// All bytes zero.
+  Zero,
+  /// All bytes `x`.
+  Uniform,
+  /// The 16-byte line `0123456789abcde\n` repeated (cut at `size`).
+  Lines,
+  /// Base pattern of `size - k` bytes followed by `k` NUL bytes.
+  BaseNul(u8),
+  /// The text `data\n` repeated (cut at `size`).
+  Data,
+  /// `Data` of `size - k` bytes followed by `k` NUL bytes.
+  DataNul(u8),
+}
+
+const LINE16: &[u8; 16] = b"0123456789abcde\n";
+const DATA: &[u8; 5] = b"data\n";
 
 impl Variant {
-  fn as_str(self) -> &'static str {
-    match self { Variant::Base => "base", Variant::LastDiffers => "last-byte-differs", Variant::FirstDiffers => "first-byte-differs" }
+  fn as_str(self) -> String {
+    match self {
+      Variant::Base => "base".into(), Variant::LastDiffers => "last-byte-differs".into(), Variant::FirstDiffers => "first-byte-differs".into(),
+      Variant::Zero => "all-zero".into(), Variant::Uniform => "uniform-x".into(), Variant::Lines => "lines16".into(),
+      Variant::BaseNul(k) => format!("base+{}nul", k), Variant::Data => "data".into(), Variant::DataNul(k) => format!("data+{}nul", k),
+    }
   }
   fn parse(s: &str) -> Option<Self> {
-    match s { "base" => Some(Variant::Base), "last-byte-differs" => Some(Variant::LastDiffers), "first-byte-differs" => Some(Variant::FirstDiffers), _ => None }
+    let nul = |rest: &str| rest.strip_suffix("nul").and_then(|k| k.parse::<u8>().ok()).filter(|k| *k >= 1);
+    match s {
+      "base" => Some(Variant::Base), "last-byte-differs" => Some(Variant::LastDiffers), "first-byte-differs" => Some(Variant::FirstDiffers),
+      "all-zero" => Some(Variant::Zero), "uniform-x" => Some(Variant::Uniform), "lines16" => Some(Variant::Lines), "data" => Some(Variant::Data),
+      _ => if let Some(r) = s.strip_prefix("base+") { nul(r).map(Variant::BaseNul) } else if let Some(r) = s.strip_prefix("data+") { nul(r).map(Variant::DataNul) } else { None },
+    }
+  }
+  /// Smallest size at which the variant is defined.
+  fn min_size(self) -> usize {
+    match self { Variant::LastDiffers => 1, Variant::FirstDiffers => 2, Variant::BaseNul(k) | Variant::DataNul(k) => k as usize, _ => 0 }
   }
 }
 
@@ -182,9 +215,7 @@ impl St {
         let size = v.get("size").and_then(|s| s.as_u64()).ok_or("file state without size")? as usize;
         if size > (1 << 26) { return Err("file size too large".into()); }
         let var = v.get("variant").and_then(|s| s.as_str()).and_then(Variant::parse).ok_or("bad variant")?;
-        if (size == 0 && var != Variant::Base) || (size == 1 && var == Variant::FirstDiffers) {
-          return Err("variant not available at this size".into());
-        }
+        if size < var.min_size() { return Err("variant not available at this size".into()); }
         Ok(St::File { size, var, mt: mt(v)? })
       }
       Some("dir") => {
@@ -202,15 +233,65 @@ impl St {
   }
 }
 
-/// Deterministic content: a base pattern without short periods; variants flip the last / first byte.
+/// Deterministic content of exactly `size` bytes.
 pub fn content(size: usize, var: Variant) -> Vec<u8> {
-  let mut v: Vec<u8> = (0..size).map(|i| ((i.wrapping_mul(31).wrapping_add(i >> 8).wrapping_add(7)) % 251) as u8).collect();
+  let base = |n: usize| -> Vec<u8> { (0..n).map(|i| ((i.wrapping_mul(31).wrapping_add(i >> 8).wrapping_add(7)) % 251) as u8).collect() };
+  let cyclic = |n: usize, pat: &[u8]| -> Vec<u8> { (0..n).map(|i| pat[i % pat.len()]).collect() };
+  let padded = |mut v: Vec<u8>, k: u8| -> Vec<u8> { v.extend(std::iter::repeat(0u8).take(k as usize)); v };
+  let mut v = match var {
+    Variant::Base | Variant::LastDiffers | Variant::FirstDiffers => base(size),
+    Variant::Zero => vec![0u8; size],
+    Variant::Uniform => vec![b'x'; size],
+    Variant::Lines => cyclic(size, LINE16),
+    Variant::Data => cyclic(size, DATA),
+    Variant::BaseNul(k) => padded(base(size.saturating_sub(k as usize)), k),
+    Variant::DataNul(k) => padded(cyclic(size.saturating_sub(k as usize), DATA), k),
+  };
   match var {
-    Variant::Base => {}
     Variant::LastDiffers => if let Some(b) = v.last_mut() { *b ^= 0xFF },
     Variant::FirstDiffers => if let Some(b) = v.first_mut() { *b ^= 0xFF },
+    _ => {}
   }
+  debug_assert!(v.len() == size || size < var.min_size());
   v
+}
+
+thread_local! { static CONTENT_EQ: std::cell::RefCell<BTreeMap<((usize, Variant), (usize, Variant)), bool>> = const { std::cell::RefCell::new(BTreeMap::new()) }; }
+
+/// Are the contents of two file states equal? (Decided on the actual bytes; memoised per thread.)
+pub fn contents_equal(a: (usize, Variant), b: (usize, Variant)) -> bool {
+  if a.0 != b.0 { return false; }
+  if a.1 == b.1 { return true; }
+  CONTENT_EQ.with(|m| *m.borrow_mut().entry((a, b)).or_insert_with(|| content(a.0, a.1) == content(b.0, b.1)))
+}
+
+/// The base file contents of a tier: (size, variant), smallest first.
+pub fn base_file_contents(sizes: &[usize]) -> Vec<(usize, Variant)> {
+  let mut out = Vec::new();
+  for &size in sizes {
+    for var in [Variant::Base, Variant::LastDiffers, Variant::FirstDiffers] { if size >= var.min_size() { out.push((size, var)); } }
+  }
+  out
+}
+
+/// Extra file contents: one representative per shortcut a content-hashing implementation could take (padding to a
+/// block, ignoring trailing NULs, hashing a period or a prefix, ...). For every size class `s`: all-zero, uniform `x`,
+/// periodic 16-byte lines (each of `s` bytes) and the base content of `s` bytes plus 1 and 2 trailing NULs (`s+1`,
+/// `s+2` bytes); plus fixed representatives: `\0`, `\0\0` (against the empty file), `data\n` with 0/1/2 trailing NULs,
+/// 8292 and 8392 bytes of `x`, 515 and 519 identical 16-byte lines. Smallest first; contents equal to an earlier
+/// (base or extra) content are left out, so all file contents of the alphabet are pairwise different.
+pub fn extra_file_contents(sizes: &[usize]) -> Vec<(usize, Variant)> {
+  let mut cand: Vec<(usize, Variant)> = vec![
+    (1, Variant::Zero), (2, Variant::Zero), (5, Variant::Data), (6, Variant::DataNul(1)), (7, Variant::DataNul(2)),
+    (8292, Variant::Uniform), (8392, Variant::Uniform), (515 * 16, Variant::Lines), (519 * 16, Variant::Lines),
+  ];
+  for &s in sizes {
+    cand.extend([(s, Variant::Zero), (s, Variant::Uniform), (s, Variant::Lines), (s + 1, Variant::BaseNul(1)), (s + 2, Variant::BaseNul(2))]);
+  }
+  cand.sort();
+  cand.dedup();
+  let mut seen: BTreeSet<Vec<u8>> = base_file_contents(sizes).into_iter().map(|(s, v)| content(s, v)).collect();
+  cand.into_iter().filter(|(s, v)| seen.insert(content(*s, *v))).collect()
 }
 
 /// All subsets of at most `MAX_NAMES` names of the pool, smallest first (count, total length, lexicographic).
@@ -230,14 +311,7 @@ pub fn name_sets() -> Vec<Vec<Name>> {
 /// The alphabet of path states, smallest first.
 pub fn alphabet(sizes: &[usize], sets: &[Vec<Name>]) -> Vec<St> {
   let mut out = vec![St::Absent];
-  for &size in sizes {
-    let vars: &[Variant] = match size {
-      0 => &[Variant::Base],
-      1 => &[Variant::Base, Variant::LastDiffers],
-      _ => &[Variant::Base, Variant::LastDiffers, Variant::FirstDiffers],
-    };
-    for &var in vars { for mt in 0..2u8 { out.push(St::File { size, var, mt }); } }
-  }
+  for (size, var) in base_file_contents(sizes) { for mt in 0..2u8 { out.push(St::File { size, var, mt }); } }
   for names in sets { for mt in 0..2u8 { out.push(St::Dir { names: names.clone(), mt }); } }
   out
 }
@@ -318,8 +392,7 @@ pub fn reference(ck: Ck, s1: &St, s2: &St, untouched: bool) -> (Expect, &'static
       (St::Absent, St::Absent) => (Expect::Consistent, "C13/hash-absent"),
       (St::Absent, _) | (_, St::Absent) => (Expect::Inconsistent, "C13/hash-absent"),
       (St::File { size: a, var: va, .. }, St::File { size: b, var: vb, .. }) => {
-        // Variants of one size have pairwise different contents by construction (unit test `contents_differ_..`).
-        let eq = a == b && va == vb;
+        let eq = contents_equal((*a, *va), (*b, *vb));
         (if eq { Expect::Consistent } else { Expect::Inconsistent }, "C13/hash-file-content")
       }
       (St::Dir { names: a, .. }, St::Dir { names: b, .. }) => {
@@ -1111,13 +1184,27 @@ impl Plan {
     Plan { alpha, n_base, seq_alpha, starts }
   }
 
-  /// Which checkers run on the ordered pair (i, j). Base x base: all three. A pair involving an extended directory
-  /// state: entry names are observed by the hash checker only, so only `HashChecker` runs, and the partner is any
-  /// extended directory state, any base directory state at T1, Absent, or the smallest file state.
+  /// Which checkers run on the ordered pair (i, j). Base x base: all three. A pair involving an extended state
+  /// (extra file content / directory with an extra entry name): contents and names are observed by the hash checker
+  /// only, so only `HashChecker` runs, and only against the partners that matter: an extended file meets every
+  /// extended file, every base file at T1, Absent and the empty directory; an extended directory meets every extended
+  /// directory, every base directory at T1, Absent and the smallest file.
   fn pair_checkers(&self, i: usize, j: usize) -> &'static [Ck] {
     if i < self.n_base && j < self.n_base { return &Ck::ALL; }
-    let partner = |k: usize| k >= self.n_base || match &self.alpha[k] { St::Absent => true, St::Dir { mt, .. } => *mt == 0, St::File { .. } => k == 1 };
-    if partner(i) && partner(j) { &[Ck::Hash] } else { &[] }
+    let first_file = 1;
+    let first_dir = self.alpha[..self.n_base].iter().position(|s| s.kind() == Kind::Dir).unwrap_or(usize::MAX);
+    let accepts = |x: usize, y: usize| -> bool {
+      if x < self.n_base { return true; }
+      let (ext, t1) = (y >= self.n_base, self.alpha[y].mtime() != Some(1));
+      match (self.alpha[x].kind(), self.alpha[y].kind()) {
+        (_, Kind::Absent) => true,
+        (Kind::File, Kind::File) | (Kind::Dir, Kind::Dir) => ext || t1,
+        (Kind::File, Kind::Dir) => y == first_dir,
+        (Kind::Dir, Kind::File) => y == first_file,
+        (Kind::Absent, _) => true,
+      }
+    };
+    if accepts(i, j) && accepts(j, i) { &[Ck::Hash] } else { &[] }
   }
   fn total(&self) -> usize { self.starts[4] }
   fn items(&self, phase: usize) -> usize { self.starts[phase + 1] - self.starts[phase] }
@@ -1221,12 +1308,17 @@ fn run_enumeration(args: &Args, root: &Path) -> i32 {
   let (extra, names_skipped) = match probe_names(root) { Ok(x) => x, Err(e) => fail(root, &format!("C13 name probe: {}", e)) };
   let extra_only: Vec<Name> = extra.iter().map(|(n, _)| n.clone()).collect();
   let extra_sets = extra_name_sets(&extra_only);
-  let extended: Vec<St> = extra_sets.iter().map(|names| St::Dir { names: names.clone(), mt: 0 }).collect();
   let (sizes, wall_cap) = match args.tier { Tier::Quick => (QUICK_SIZES, 22.0), Tier::Thorough => (FULL_SIZES, 570.0) };
+  let extra_files = extra_file_contents(sizes);
+  let mut extended: Vec<St> = extra_files.iter().map(|(size, var)| St::File { size: *size, var: *var, mt: 0 }).collect();
+  let n_ext_files = extended.len();
+  extended.extend(extra_sets.iter().map(|names| St::Dir { names: names.clone(), mt: 0 }));
   let alpha = alphabet(sizes, &sets);
   let mut seq_alpha = match args.tier { Tier::Quick => core_alphabet(), Tier::Thorough => alpha.clone() };
   // Two non-UTF-8 single-name directories take part in the sequences as well.
   seq_alpha.extend(extended.iter().filter(|s| matches!(s, St::Dir { names, .. } if names.len() == 1 && std::str::from_utf8(&names[0].0).is_err())).take(2).cloned());
+  // ... and two extra file contents (a NUL byte; 8392 bytes of 'x').
+  seq_alpha.extend([St::File { size: 1, var: Variant::Zero, mt: 0 }, St::File { size: 8392, var: Variant::Uniform, mt: 0 }]);
   let plan = Plan::new(alpha, extended, seq_alpha);
 
   let threads = args.extra.iter().find_map(|a| a.strip_prefix("threads=").and_then(|n| n.parse::<usize>().ok()))
@@ -1309,7 +1401,16 @@ fn run_enumeration(args: &Args, root: &Path) -> i32 {
     "not_judged": total.outcomes[c as usize][OUT_NOT_JUDGED],
   });
   rep.set("states", json!(total.states.len()));
-  rep.set("alphabet_states", json!({"base": plan.n_base, "extended_dirs": n - plan.n_base, "total": n}));
+  rep.set("alphabet_states", json!({"base": plan.n_base, "extended_files": n_ext_files, "extended_dirs": n - plan.n_base - n_ext_files, "total": n}));
+  rep.set("file_state_selection", json!(format!(
+    "base: sizes {:?} with the base pattern and its last-byte / first-byte variants ({} contents) at both mtimes; extended: {} extra \
+     contents at mtime T1 only: for every size class s all-zero, uniform 'x', periodic 16-byte lines (s bytes) and base content + 1 / 2 \
+     trailing NULs (s+1, s+2 bytes), plus NUL, NUL NUL, 'data\\n' with 0/1/2 trailing NULs, 8292 / 8392 bytes of 'x', 515 / 519 identical \
+     16-byte lines; contents equal to an earlier one are left out (all file contents are pairwise different). Pair phase: every \
+     ordered pair of file contents (base at T1 and extended) runs under HashChecker, all routes; ExistsChecker and ModifiedChecker \
+     (which do not observe content) keep the base file alphabet; extended files also meet Absent and the empty directory.",
+    sizes, base_file_contents(sizes).len(), n_ext_files)));
+  rep.set("extra_file_contents", Value::Array(extra_files.iter().map(|(sz, v)| json!({"size": sz, "variant": v.as_str()})).collect()));
   rep.set("pair_units", json!(total.pair_units));
   rep.set("dir_state_selection", json!(format!(
     "base: every subset of <= {} names of the {} ASCII names ({} sets) at both mtimes; extended: every subset of <= {} of the \
@@ -1353,7 +1454,8 @@ fn run_enumeration(args: &Args, root: &Path) -> i32 {
      reference relation; every length-3 sequence over the sequence alphabet with stamps of earlier states checked at later \
      ones; smallest states first"));
   rep.set("bounds", json!({
-    "file_sizes": sizes, "content_variants": ["base", "last-byte-differs", "first-byte-differs (size >= 2)"],
+    "file_sizes": sizes, "content_variants": ["base", "last-byte-differs", "first-byte-differs (size >= 2)", "all-zero", "uniform-x", "lines16", "base+1nul", "base+2nul", "data", "data+1nul", "data+2nul"],
+    "extra_file_contents": n_ext_files,
     "dir_name_pool": NAME_POOL, "dir_max_names": MAX_NAMES, "dir_name_sets": sets.len(),
     "dir_extra_names": extra.len(), "dir_extra_max_names": MAX_EXTRA_NAMES, "dir_extra_name_sets": extra_sets.len(),
     "mtimes_unix_s": T_SECS, "pair_alphabet": n, "sequence_alphabet": plan.seq_alpha.len(), "sequence_length": 3,
@@ -1434,6 +1536,37 @@ mod test {
         assert_ne!(fi, content(s, Variant::LastDiffers));
       }
     }
+  }
+
+  #[test]
+  fn extra_file_contents_are_distinct_and_cover_the_shortcuts() {
+    for sizes in [QUICK_SIZES, FULL_SIZES] {
+      let mut all = base_file_contents(sizes);
+      let extra = extra_file_contents(sizes);
+      all.extend(extra.iter().copied());
+      let bytes: BTreeSet<Vec<u8>> = all.iter().map(|(s, v)| content(*s, *v)).collect();
+      assert_eq!(bytes.len(), all.len());
+      for (s, v) in &all { assert_eq!(content(*s, *v).len(), *s); assert_eq!(Variant::parse(&v.as_str()), Some(*v)); }
+      let has = |b: &[u8]| bytes.contains(b);
+      assert!(has(b"") && has(b"\0") && has(b"\0\0") && has(b"data\n") && has(b"data\n\0") && has(b"data\n\0\0"));
+      assert!(has(&vec![b'x'; 8292]) && has(&vec![b'x'; 8392]));
+      assert!(has(&LINE16.repeat(515)) && has(&LINE16.repeat(519)));
+      let mut b = content(8192, Variant::Base); b.push(0);
+      assert!(has(&b)); b.push(0); assert!(has(&b));
+      assert!(has(&vec![0u8; 8192]) && has(&vec![b'x'; 8193]));
+      assert!(extra.windows(2).all(|w| w[0] < w[1]));
+    }
+    // Equality is decided on the bytes, not on the description.
+    assert!(contents_equal((1, Variant::Zero), (1, Variant::BaseNul(1))));
+    assert!(contents_equal((0, Variant::Base), (0, Variant::Uniform)));
+    assert!(!contents_equal((5, Variant::Data), (7, Variant::DataNul(2))));
+    assert!(!contents_equal((8292, Variant::Uniform), (8392, Variant::Uniform)));
+    assert!(!contents_equal((8192, Variant::Base), (8192, Variant::LastDiffers)));
+    let f = |size, var| St::File { size, var, mt: 0 };
+    assert_eq!(reference(Ck::Hash, &f(0, Variant::Base), &f(1, Variant::Zero), false), (Expect::Inconsistent, "C13/hash-file-content"));
+    assert_eq!(reference(Ck::Hash, &f(5, Variant::Data), &f(7, Variant::DataNul(2)), false).0, Expect::Inconsistent);
+    assert_eq!(reference(Ck::Hash, &f(8292, Variant::Uniform), &f(8392, Variant::Uniform), false).0, Expect::Inconsistent);
+    assert_eq!(reference(Ck::Hash, &f(1, Variant::Zero), &f(1, Variant::BaseNul(1)), false).0, Expect::Consistent);
   }
 
   #[test]
